@@ -407,8 +407,8 @@ class World(EventDispatcher):
                         getattr(removed,
                                 removed.__events__[ON_REMOVE_EVENT_NAME])(
                                     entity, self)
-                    # on_add exists but dispatching is disabled
-                    elif not self._dispatch_enabled:
+                    # on_remove exists but dispatching is disabled
+                    elif ON_REMOVE_EVENT_NAME in removed.__events__:
                         self.dispatch(ON_SINGLE_DISPATCH_EVENT_NAME,
                                       ON_REMOVE_EVENT_NAME,
                                       removed, entity, self)
@@ -503,8 +503,8 @@ class World(EventDispatcher):
                         and self._dispatch_enabled):
                     getattr(removed,
                             removed.__events__[ON_REMOVE_EVENT_NAME])()
-                # on_add exists but dispatching is disabled
-                elif not self._dispatch_enabled:
+                # on_remove exists but dispatching is disabled
+                elif ON_REMOVE_EVENT_NAME in removed.__events__:
                     self.dispatch(ON_SINGLE_DISPATCH_EVENT_NAME,
                                   ON_REMOVE_EVENT_NAME, removed)
 
